@@ -136,6 +136,16 @@ Section Derive.
   (* ImportKeystore: "if kStore.HDpath.ExternalChildNum == 0 { ... = 1 }" *)
   Definition import_ex_counter (j : keystore_json) : Z := if j_ex j =? 0 then 1 else j_ex j.
 
+  (* what allocAddrMgrNamespace persists for the imported keystore: the RECOVERED entropy under a
+     fresh crypto key, that key under the same scrypt key (privParams are copied), the counters;
+     this is what a later export of the imported keystore hands out *)
+  Definition reimport (j : keystore_json) (pass cke' n1' n2' : bytes) : option keystore_json :=
+    match import_keystore_seed j pass with
+    | Some (Bip39.Ok (e, _)) =>
+        Some (persist_entropy pass (j_salt j) cke' n1' n2' e (import_ex_counter j) (j_in j))
+    | _ => None
+    end.
+
   (* a stored public key row (bucket pub): the compressed key under cryptoKeyPub; what
      loadAddrManager makes of it: Decrypt, btcec.ParsePubKey, SerializeCompressed, script hash *)
   Definition pub_row (ckpub nonce pub33 : bytes) : bytes := seal ckpub nonce pub33.
